@@ -47,7 +47,7 @@ func VerifC06_V2SymmetricRotateDestroy() {
 	s := verifServer(be, suite)
 	id := []byte("a")
 	r := 4 + verif.Tier() // at least 3 rotated keys, so that a destroyed key can sit between two live ones
-	var gen [][]byte // gen[i] = key made by generation i (oldest first)
+	var gen [][]byte      // gen[i] = key made by generation i (oldest first)
 	for i := 0; i < r; i++ {
 		verif.Assert(s.GenerateClientIDSymmetricKey(id) == nil, "generate")
 		k, err := s.GetClientIDSymmetricKey(id)
